@@ -23,6 +23,9 @@
    with SCAN_NO_FINAL = a scan without any re-validation: ScanOK fails).
    SCAN_DUP (defect F17 of the pinned tree: a key whose border was emptied and unlinked and that is inserted again lands in the border
    the scan is standing on and is returned a second time).
+   ISCAN_NO_REWIND (the cursor keeps its rank when the permutation of its border changed: entries shift under it).
+   iscan (cursor: open(-inf, +inf), next until the end): IOLv1 IOP IOLv2 IOStack / INTop INNext INEnt / iscan_check_retry CK1..CK4 with the
+   outcome CkDone per call site / INNb1..3 move to the neighbour / IRFb retry_after_fb / IRRoot IRArr retry_from_root / IRet
    Two other candidate switches turned out to be harmless for forward scans and were dropped (TLC finds no violation): starting a
    border from a fresh version instead of the handed-over one, and logging the next border's version after the final check (a
    forward scan reads the next pointer and the content after the version, so a later version only makes it see a later state).
@@ -33,7 +36,7 @@ CONSTANTS F, Keys, Threads,
           Prog,            \* [Threads -> [op : {"get", "put", "rem"}, k : Keys, v : value id]]
           Init1, Init2,    \* keys of B1 and B2 (every key of B1 below every key of B2; both non-empty)
           UNLOCK_BEFORE_PARENT, NO_INS_ON_INSERT, NO_INS_ON_DELETE,
-          SCAN_NO_FINAL, SCAN_NO_ENTRY_CHECK, SCAN_DUP
+          SCAN_NO_FINAL, SCAN_NO_ENTRY_CHECK, SCAN_DUP, ISCAN_NO_REWIND
 ABSENT == 0
 NULL == 0
 NoSlot == 99
@@ -441,11 +444,8 @@ CkDone(t, l) ==
    ELSE IF l.cc = 2 THEN loc' = [loc EXCEPT ![t] = [l EXCEPT !.nv = Append(l.nv, <<l.vfb, l.b>>), !.out = Append(l.out, <<l.kt, l.w>>), !.stb = l.b, !.stlast = l.kt, !.strank = l.strank + 1]]
                          /\ Goto(t, "in_top")
    ELSE IF l.cc = 3 THEN
-        (IF l.nxt = NULL THEN loc' = [loc EXCEPT ![t] = [l EXCEPT !.nv = Append(l.nv, <<l.vfb, l.b>>)]] /\ Goto(t, "i_ret")
-         ELSE IF bd[l.nxt].prev # l.b THEN loc' = [loc EXCEPT ![t] = [l EXCEPT !.nv = Append(l.nv, <<l.vfb, l.b>>)]] /\ Goto(t, "ir_root")
-         ELSE loc' = [loc EXCEPT ![t] = [l EXCEPT !.nv = Append(l.nv, <<l.vfb, l.b>>), !.b = l.nxt, !.vfb = l.tov, !.perm = l.top,
-                                                 !.stb = l.nxt, !.strank = 1, !.stv = l.tov, !.stperm = l.top]] /\ Goto(t, "in_next"))
-   ELSE loc' = [loc EXCEPT ![t] = [l EXCEPT !.strank = 1, !.stperm = l.perm]] /\ Goto(t, "in_next")
+        (loc' = [loc EXCEPT ![t] = [l EXCEPT !.nv = Append(l.nv, <<l.vfb, l.b>>)]] /\ Goto(t, IF l.nxt = NULL THEN "i_ret" ELSE "in_nb4"))
+   ELSE loc' = [loc EXCEPT ![t] = [l EXCEPT !.strank = IF ISCAN_NO_REWIND THEN l.strank ELSE 1, !.stperm = l.perm]] /\ Goto(t, "in_next")
 CK3(t) == /\ pc[t] = "ck3" /\ Stable(bd[loc[t].b].ver)
           /\ IF bd[loc[t].b].ver # loc[t].ckv THEN loc' = [loc EXCEPT ![t].ckv = bd[loc[t].b].ver] /\ Goto(t, "ck4")
              ELSE CkDone(t, loc[t])
@@ -462,6 +462,11 @@ INNb2(t) == /\ pc[t] = "in_nb2" /\ Stable(bd[loc[t].nxt].ver)
                ELSE loc' = [loc EXCEPT ![t].tov = bd[loc[t].nxt].ver] /\ Goto(t, "in_nb3")
             /\ UNCHANGED U9
 INNb3(t) == /\ pc[t] = "in_nb3" /\ loc' = [loc EXCEPT ![t].top = bd[loc[t].nxt].perm, ![t].cc = 3] /\ Goto(t, "ck1") /\ UNCHANGED U9
+\* the neighbour must still point back (prev of the next border), then the cursor adopts it
+INNb4(t) == /\ pc[t] = "in_nb4" /\ LET l == loc[t] IN
+               IF bd[l.nxt].prev # l.b THEN Goto(t, "ir_root") /\ UNCHANGED loc
+               ELSE loc' = [loc EXCEPT ![t].b = l.nxt, ![t].vfb = l.tov, ![t].perm = l.top, ![t].stb = l.nxt, ![t].strank = 1, ![t].stv = l.tov, ![t].stperm = l.top] /\ Goto(t, "in_next")
+            /\ UNCHANGED U9
 \* retry_after_fb: the border changed without a split: start it again from rank 0 unless its smallest key is already behind the cursor
 IRFb(t) == /\ pc[t] = "ir_fb" /\ LET l == loc[t] IN
               IF Len(l.perm) = 0 THEN Goto(t, "ir_root") /\ UNCHANGED loc
@@ -472,17 +477,21 @@ IRFb(t) == /\ pc[t] = "ir_fb" /\ LET l == loc[t] IN
 \* is deleted or no longer root; a deleted tree root that is still the root ends the scan)
 IRRoot(t) == /\ pc[t] = "ir_root" /\ Stable(VerOf(loc[t].stroot))
              /\ LET l == loc[t] r == l.stroot rv == VerOf(r) IN
-                IF rv.del THEN (IF r # rootp THEN loc' = [loc EXCEPT ![t].stroot = rootp] /\ UNCHANGED pc ELSE Goto(t, "i_ret") /\ UNCHANGED loc)
-                ELSE IF ~rv.root THEN loc' = [loc EXCEPT ![t].stroot = rootp] /\ UNCHANGED pc
-                ELSE IF r \in Interiors THEN loc' = [loc EXCEPT ![t].root = r, ![t].cur = r, ![t].pv = rv] /\ Goto(t, "gc1")
-                ELSE loc' = [loc EXCEPT ![t].root = r, ![t].b = r, ![t].vfb = rv] /\ Goto(t, "ir_arr")
+                IF rv.del THEN Goto(t, "ir_rld") /\ UNCHANGED loc
+                ELSE IF ~rv.root THEN Goto(t, "ir_rl") /\ UNCHANGED loc
+                ELSE loc' = [loc EXCEPT ![t].root = r] /\ Goto(t, "fb")          \* find_border(root, last key) takes its own stable version of the root
              /\ UNCHANGED U9
+\* the tree root pointer is loaded again: saved root no longer root -> adopt the new one; saved root deleted -> adopt a different one, or end
+IRRl(t) == /\ pc[t] = "ir_rl" /\ loc' = [loc EXCEPT ![t].stroot = rootp] /\ Goto(t, "ir_root") /\ UNCHANGED U9
+IRRld(t) == /\ pc[t] = "ir_rld"
+            /\ IF loc[t].stroot # rootp THEN loc' = [loc EXCEPT ![t].stroot = rootp] /\ Goto(t, "ir_root") ELSE Goto(t, "i_ret") /\ UNCHANGED loc
+            /\ UNCHANGED U9
 IRArr(t) == /\ pc[t] = "ir_arr"
             /\ loc' = [loc EXCEPT ![t].stb = loc[t].b, ![t].strank = 1, ![t].stperm = bd[loc[t].b].perm, ![t].stv = loc[t].vfb, ![t].perm = bd[loc[t].b].perm]
             /\ Goto(t, "in_next") /\ UNCHANGED U9
 IRet(t) == /\ pc[t] = "i_ret" /\ Ret(t, <<"OK", loc[t].out>>) /\ UNCHANGED <<bd, it, rootp, rootlock, loc, abs, seen>>
 IStep(t) == IOLv1(t) \/ IOP(t) \/ IOLv2(t) \/ IOStack(t) \/ INTop(t) \/ INNext(t) \/ INEnt(t) \/ CK1(t) \/ CK2(t) \/ CK3(t) \/ CK4(t)
-            \/ INNb1(t) \/ INNb2(t) \/ INNb3(t) \/ IRFb(t) \/ IRRoot(t) \/ IRArr(t) \/ IRet(t)
+            \/ INNb1(t) \/ INNb2(t) \/ INNb3(t) \/ INNb4(t) \/ IRFb(t) \/ IRRoot(t) \/ IRRl(t) \/ IRRld(t) \/ IRArr(t) \/ IRet(t)
 Step(t) == IStep(t) \/ SEnter(t) \/ SRet(t) \/ SNext(t) \/ SPermS(t) \/ SVal(t) \/ SChk(t) \/ SRec(t) \/ SNv(t) \/ SFin(t) \/ Start(t) \/ G0(t) \/ FB(t) \/ GC1(t) \/ GC2(t) \/ GC3(t) \/ GC4(t) \/ LV1(t) \/ PermLd(t) \/ LV2(t) \/ GVal(t) \/ GFc(t)
            \/ RFc0(t) \/ Lock(t) \/ Chk(t) \/ PUndel(t) \/ PSlot(t) \/ PPub(t) \/ PSet(t) \/ PUnlock(t)
            \/ S1(t) \/ S3a(t) \/ S3(t) \/ S3b(t) \/ SMove(t) \/ SPerm(t) \/ S6(t) \/ S7a(t) \/ S7b(t) \/ U1(t) \/ U2(t)
